@@ -390,6 +390,38 @@ def check_recursion_specifics(model, rep):
     rep.ob('R18.6', w.key, w.where(), ok, 'function entries are written and read as (value, log)' if ok else 'writer and reader of function entries disagree on the tuple layout', statement='entry-layout')
 
 
+def check_users(model, rep):
+    '''R18.7: the memoised solver entry points hash every argument, so every iteration-method class must be hashable (sibling agreement).'''
+    m = model.module('solver')
+    memo = []
+    for f in model.functions.values():
+        if f.module is m and any(d.endswith('cache.function') for d in f.decorators):
+            memo.append(f)
+    rep.unit('memoised_solver_entry_points', len(memo))
+    if len(memo) < 3:
+        raise AnalysisError(f'only {len(memo)} cache.function users found in solver.py')
+    methods = []
+    for c in m.classes.values():
+        call = c.members.get('__call__')
+        if call is None or call.func is None:
+            continue
+        pos, kwonly, _, _ = params(call.func.node)
+        if len(pos) >= 2 and pos[1] == 'system' and {'arguments', 'constrain'} <= set(kwonly):
+            methods.append(c)
+    if len(methods) < 6:
+        raise AnalysisError(f'only {len(methods)} iteration-method classes found')
+    for c in methods:
+        dataclass = any('dataclass' in src(d) for d in c.node.decorator_list)
+        ok = '__nutils_hash__' in c.members or dataclass
+        rep.ob('R18.7', c.key, f'{c.module.relpath}:{c.node.lineno}', ok, f'{c.name} instances can be hashed for the cache key of System.solve' if ok else
+               f'{c.name} defines no __nutils_hash__ ({len([x for x in methods if "__nutils_hash__" in x.members])} of {len(methods)} sibling methods do): with caching enabled System.solve(method={c.name}()) raises TypeError '
+               'instead of returning what it returns with caching disabled', statement='method-hashable')
+    for f in memo:
+        if f.cls is not None:
+            ok = '__nutils_hash__' in f.cls.members or any('dataclass' in src(d) for d in f.cls.node.decorator_list)
+            rep.ob('R18.7', f.key, f.where(), ok, f'the owner {f.cls.name} of the memoised method is hashable' if ok else f'{f.cls.name} owns a memoised method but is not hashable', statement='owner-hashable')
+
+
 def run(model, rep, tier):
     rep.explanation = (
         'Typestate analysis of cache.function.<locals>.wrapper and Recursion.__iter__ over all structurally enumerated, flag-sensitive paths (loops unrolled twice for the recursion), with '
@@ -405,11 +437,13 @@ def run(model, rep, tier):
     rep.rule('R18.4', 'key completeness')
     rep.rule('R18.5', 'computation with caching disabled and log recorded; hits replay; exceptions propagate without a store')
     rep.rule('R18.6', 'recursion bookkeeping and entry layout agreement')
+    rep.rule('R18.7', 'arguments of memoised solver entry points are hashable (sibling agreement of the method classes)')
     check_protocol(model, rep, 'cache:function.<locals>.wrapper', lambda c: src(c.func) == 'func', recursion=False)
     check_protocol(model, rep, 'cache:Recursion.__iter__', lambda c: src(c.func) == 'next' and c.args and src(c.args[0]) == 'resume', recursion=True)
     check_lock_selection(model, rep)
     check_key(model, rep)
     check_recursion_specifics(model, rep)
+    check_users(model, rep)
     rep.require('R18.1', 14)
     rep.require('R18.4', 9)
     rep.require('R18.6', 9)
